@@ -491,7 +491,15 @@ struct NullExporter : sdk::SpanExporter {
   bool Shutdown(std::chrono::microseconds) noexcept override { return true; }
 };
 
-constexpr int kTracerSamplers = 7;
+// a delegate with a fixed answer (the built-in samplers never answer RECORD_ONLY: recorded, but not sampled)
+struct FixedDecision : sdk::Sampler {
+  Decision d;
+  explicit FixedDecision(Decision dd) : d(dd) {}
+  sdk::SamplingResult ShouldSample(const tr::SpanContext &, tr::TraceId, nostd::string_view, tr::SpanKind, const opentelemetry::common::KeyValueIterable &,
+                                   const tr::SpanContextKeyValueIterable &) noexcept override { return {d, nullptr, {}}; }
+  nostd::string_view GetDescription() const noexcept override { return "FixedDecision"; }
+};
+constexpr int kTracerSamplers = 9;
 std::unique_ptr<sdk::Sampler> tracer_sampler(int i, double ratio, std::string *name) {
   switch (i) {
     case 0: *name = "AlwaysOff"; return std::unique_ptr<sdk::Sampler>(new sdk::AlwaysOffSampler());
@@ -500,6 +508,8 @@ std::unique_ptr<sdk::Sampler> tracer_sampler(int i, double ratio, std::string *n
     case 3: *name = "ParentBased{AlwaysOn}"; return std::unique_ptr<sdk::Sampler>(new sdk::ParentBasedSampler(std::make_shared<sdk::AlwaysOnSampler>()));
     case 4: *name = "Ratio(0.5)"; return std::unique_ptr<sdk::Sampler>(new sdk::TraceIdRatioBasedSampler(0.5));
     case 5: *name = "Ratio(" + rname(ratio) + ")"; return std::unique_ptr<sdk::Sampler>(new sdk::TraceIdRatioBasedSampler(ratio));
+    case 7: *name = "Fixed(RECORD_ONLY)"; return std::unique_ptr<sdk::Sampler>(new FixedDecision(Decision::RECORD_ONLY));
+    case 8: *name = "ParentBased{Fixed(RECORD_ONLY)}"; return std::unique_ptr<sdk::Sampler>(new sdk::ParentBasedSampler(std::make_shared<FixedDecision>(Decision::RECORD_ONLY)));
     default: *name = "ParentBased{Ratio(" + rname(ratio) + ")}"; return std::unique_ptr<sdk::Sampler>(new sdk::ParentBasedSampler(std::make_shared<sdk::TraceIdRatioBasedSampler>(ratio)));
   }
 }
@@ -511,7 +521,7 @@ void run_tracer(vf::Ctx &c) {
     for (size_t i = 0; i < g_ratios.size(); ++i) if (g_boundary_of_ratio[i] >= 0) interior.push_back((int)i);
   int si = c.pick("sampler", kTracerSamplers);
   // (no interior boundary at all can only happen on a broken sampler: fall back to the fixed ids)
-  int ri = (si >= 5 && !interior.empty()) ? interior[c.pick("ratio", (int)interior.size())] : -1;
+  int ri = ((si == 5 || si == 6) && !interior.empty()) ? interior[c.pick("ratio", (int)interior.size())] : -1;
   int pcode = c.pick("parent", kParents);
   double ratio = ri >= 0 ? g_ratios[ri] : 0.5;
   c.stage("tracer.setup");
@@ -557,6 +567,24 @@ void run_tracer(vf::Ctx &c) {
       c.report(valid && !want.IsSampled() ? "C12:tracer:sampled-flag-set-although-dropped" : "C12:tracer:sampled-flag-differs-from-decision",
                where() + vf::sfmt(": the new span context has sampled=%d (flags %02x) but the sampler's decision for it is %s", (int)sc.IsSampled(), sc.trace_flags().flags(), dname(want.decision)));
     oh.add((uint64_t)sc.IsSampled());
+    // second generation: "all participants in a trace agree" - a child started from the new span's own context gets the
+    // decision the same sampler configuration gives for that context
+    {
+      tr::StartSpanOptions copts;
+      copts.parent = sc;
+      gen->next_trace = make_id(prefix ? prefix : 1, 0x3333);
+      auto child = tracer->StartSpan("child", copts);
+      tr::SpanContext cc = child->GetContext();
+      child->End();
+      ++evals;
+      sdk::SamplingResult cwant = reference->ShouldSample(sc, sc.trace_id(), "child", tr::SpanKind::kInternal, kNoAttrs, kNoLinks);
+      if (!(cc.trace_id() == sc.trace_id())) c.fail("C12:tracer:trace-id", where() + ": a child of the new span is not in its trace");
+      if (cc.IsSampled() != cwant.IsSampled())
+        c.report("C12:tracer:child-sampled-flag-differs-from-decision",
+                 where() + vf::sfmt(": a child started from the new span's context (flags %02x) has sampled=%d but the sampler's decision for it is %s", sc.trace_flags().flags(),
+                                    (int)cc.IsSampled(), dname(cwant.decision)));
+      oh.add((uint64_t)cc.IsSampled());
+    }
   }
   c.step(evals);
   c.state("tracer|" + sname + "|" + pname);
